@@ -65,8 +65,10 @@ def opPred : P String := do
     let fmtTolOk (F : Fmt) : Tol → Bool := fun t => match t with
       | .num u => (rndMag F u 0).isSome
       | .dflt => true
-      | .arr s _ => s == shp.tail
-      | _ => !a.data.isEmpty
+      -- array / scaled tolerances on float32/16 operands take numpy's "strong" route (binary64 product cast
+      -- back by the in-place `*=`): proved at kernel level (C01_mixed_kernel) but NOT sampled, because an
+      -- out-of-place product is an equally valid evaluation of the documented formula (harmless refactor)
+      | _ => false
     let mhypF : Bool := match fmtOf a, fmtOf b with
       | some F, some G => F == G && F != f64 && fmtTolOk F rel && fmtTolOk F abs
       | _, _ => false
